@@ -424,6 +424,17 @@ def getMeasurements {β κ : Type} (same : κ → κ → Bool) (items : List (κ
     Except ErrKind (List (List (Option β))) :=
   mapE (fun (it : κ × MeasEnc β) => getValues it.2 n) (items.filter (fun it => nameMatches same name it.1))
 
+/-- `np.vstack(values).T` (and `np.empty((n, 0))` without columns): row `i` holds the `i`-th entry of every column -/
+def measMatrix {β : Type} (n : Nat) (cols : List (List (Option β))) : List (List (Option β)) :=
+  (List.range n).map (fun i => cols.map (fun c => (c[i]?).join))
+
+/-- the value array `get_measurements(name)` returns: one row per annotation, one column per matching item -/
+def getMeasurementMatrix {β κ : Type} (same : κ → κ → Bool) (items : List (κ × MeasEnc β)) (n : Nat) (name : Option κ) :
+    Except ErrKind (List (List (Option β))) :=
+  match getMeasurements same items n name with
+  | .error e => .error e
+  | .ok cols => .ok (measMatrix n cols)
+
 /-! ### group lookup -/
 
 structure GroupInfo where
